@@ -147,6 +147,12 @@ pub enum HsKind {
 pub struct Handshake {
     pub kind: HsKind,
     pub seq: u8,
+    /// extra non-NUL pattern bytes appended to the user name (kept symbolic: long names)
+    #[serde(default)]
+    pub user_pad: usize,
+    /// extra pattern bytes appended after the trailing auth/db/plugin data
+    #[serde(default)]
+    pub tail_pad: usize,
 }
 
 impl Handshake {
@@ -160,18 +166,34 @@ impl Handshake {
                 tail: vec![0],
             },
             seq: 1,
+            user_pad: 0,
+            tail_pad: 0,
         }
+    }
+    fn padded(&self, user: &[u8], tail: &[u8]) -> (Vec<u8>, Vec<u8>) {
+        let mut u = user.to_vec();
+        u.extend((0..self.user_pad as u64).map(|i| 1 + pattern_byte(77, i) % 255));
+        let mut t = tail.to_vec();
+        t.extend((0..self.tail_pad as u64).map(|i| pattern_byte(78, i)));
+        (u, t)
     }
     pub fn payload(&self) -> Vec<u8> {
         match &self.kind {
-            HsKind::V41 { caps, max_packet, charset, user, tail } => handshake41(*caps, *max_packet, *charset, user, tail),
-            HsKind::V320 { caps, max_packet, user, tail } => handshake320(*caps, *max_packet, user, tail),
+            HsKind::V41 { caps, max_packet, charset, user, tail } => {
+                let (u, t) = self.padded(user, tail);
+                handshake41(*caps, *max_packet, *charset, &u, &t)
+            }
+            HsKind::V320 { caps, max_packet, user, tail } => {
+                let (u, t) = self.padded(user, tail);
+                handshake320(*caps, *max_packet, &u, &t)
+            }
             HsKind::Raw(p) => p.clone(),
         }
     }
-    pub fn user(&self) -> Option<&[u8]> {
+    /// the user name as sent (incl. padding)
+    pub fn user(&self) -> Option<Vec<u8>> {
         match &self.kind {
-            HsKind::V41 { user, .. } | HsKind::V320 { user, .. } => Some(user),
+            HsKind::V41 { user, tail, .. } | HsKind::V320 { user, tail, .. } => Some(self.padded(user, tail).0),
             HsKind::Raw(_) => None,
         }
     }
